@@ -285,6 +285,53 @@ def run(ctx):
             if n_unreadable:
                 st["distinct"].add(("content", j["root"]))
             st["hist"]["unreadable_files_%d" % min(n_unreadable, 3)] += 1
+    # ---- (2b) aggregates over a content column: an unreadable file or a dangling link contributes nothing, the
+    #      aggregate of the readable files' values is unaffected (plain and grouped result paths, bfs and dfs) ----
+    for k in range(4 if ctx.tier == "quick" else 40):
+        ad = os.path.join(ctx.scratch, "agg%d" % k)
+        os.makedirs(os.path.join(ad, "d"))
+        vals = {}
+        nfiles = rng.randint(3, 7)
+        for i in range(nfiles):
+            nm = rng.choice(["", "d/"]) + "f%d.%s" % (i, rng.choice(["txt", "log"]))
+            nl = rng.randint(1, 9) + (3 if i == 0 else 0)
+            with open(os.path.join(ad, nm), "w") as f:
+                f.write("row\n" * nl)
+            vals[nm] = nl
+        victim = min(vals, key=lambda x: vals[x]) if k % 2 == 0 else rng.choice(sorted(vals))     # often the file holding the minimum
+        os.chmod(os.path.join(ad, victim), 0o000)
+        os.symlink("nowhere", os.path.join(ad, "dangling.txt"))
+        os.chmod(ad, 0o755)
+        os.chmod(os.path.join(ad, "d"), 0o755)
+        readable = {n_: v for n_, v in vals.items() if n_ != victim}
+        rb = os.path.basename(ad)
+        for opt in ("", " dfs"):
+            st["evaluations"] += 1
+            q = "count(*), min(line_count), max(line_count), sum(line_count) from %s%s where is_dir = false into list" % (rb, opt)
+            r = ctx.impl.rows([q], cwd=ctx.scratch, user=NOBODY)
+            got = [v.decode() for v in r["values"]]
+            exp = [str(len(vals) + 1), str(min(readable.values())), str(max(readable.values())), str(sum(readable.values()))]
+            case = {"tree": ad, "argv": [q], "uid": NOBODY, "unreadable": victim, "line_counts": vals}
+            if got != exp:
+                ctx.violation("impl-violates-spec", "aggregates over line_count with one unreadable file and a dangling link: got %s, the readable files give %s" % (got, exp), input=case)
+            else:
+                st["agreed"] += 1
+                st["distinct"].add(("agg", ad))
+            st["evaluations"] += 1
+            qg = "ext, min(line_count), max(line_count), count(*) from %s%s where is_dir = false group by ext into list" % (rb, opt)
+            r = ctx.impl.rows([qg], cwd=ctx.scratch, user=NOBODY)
+            gv = [v.decode() for v in r["values"]]
+            grows = sorted(tuple(gv[i:i + 4]) for i in range(0, len(gv) - len(gv) % 4, 4))
+            gexp = []
+            for e_ in sorted({n_.rsplit(".", 1)[1] for n_ in vals} | {"txt"}):
+                rv = [v for n_, v in readable.items() if n_.endswith("." + e_)]
+                cnt = sum(1 for n_ in vals if n_.endswith("." + e_)) + (1 if e_ == "txt" else 0)
+                gexp.append((e_, str(min(rv)) if rv else "0", str(max(rv)) if rv else "0", str(cnt)))
+            if grows != sorted(gexp):
+                ctx.violation("impl-violates-spec", "grouped aggregates over line_count with one unreadable file and a dangling link: got %s, the readable files give %s" % (grows, sorted(gexp)), input=dict(case, argv=[qg]))
+            else:
+                st["agreed"] += 1
+        st["hist"]["aggregate_over_unreadable"] += 1
     # ---- (3) the reader closes standard output after k bytes ----
     big = os.path.join(ctx.scratch, "big")
     os.mkdir(big)
@@ -342,7 +389,7 @@ def run(ctx):
                 ctx.notes.append("F47: witness no longer hangs (status %s); update KNOWN_FINDINGS.json" % r["status"])
     ctx.coverage.update(
         evaluations=st["evaluations"], distinct_nontrivial=len(st["distinct"]), traces_validated_against_impl=st["agreed"],
-        rule="(1c) the archives option over a tree with a mode-000 archive and/or a dangling link named *.zip, as uid 65534: every other row (incl. the members of the readable archive) present, status 0, stderr empty; (1b) two-root searches where one root is itself unlistable (mode 000) or a regular file: status 1, the root named once on stderr, the healthy root complete; (1) random trees with 0-3 directories made unlistable (modes 700/711/000) searched as uid 65534, bfs and dfs, with and without maxdepth: rows must be exactly the entries outside those directories, stderr must name each failing directory, status 1 iff one is in reach; compared with model.Walk (listable flags from the observer) and an independent listing; (2) files made unreadable (600) and dangling links: only their own sha1/line_count/is_shebang are empty, sizes and other rows unchanged (hashlib oracle); (3) the reader closes stdout after k bytes for k in %s.. x six formats x streamed/ordered/filtered paths (+ aggregate and grouped): status 0 or 1 and no panic text. non-trivial = a run with at least one fault in reach" % offsets[:6],
+        rule="(1c) the archives option over a tree with a mode-000 archive and/or a dangling link named *.zip, as uid 65534: every other row (incl. the members of the readable archive) present, status 0, stderr empty; (1b) two-root searches where one root is itself unlistable (mode 000) or a regular file: status 1, the root named once on stderr, the healthy root complete; (1) random trees with 0-3 directories made unlistable (modes 700/711/000) searched as uid 65534, bfs and dfs, with and without maxdepth: rows must be exactly the entries outside those directories, stderr must name each failing directory, status 1 iff one is in reach; compared with model.Walk (listable flags from the observer) and an independent listing; (2) files made unreadable (600) and dangling links: only their own sha1/line_count/is_shebang are empty, sizes and other rows unchanged (hashlib oracle); (2b) COUNT/MIN/MAX/SUM(line_count), plain and grouped, over a directory with one mode-000 file (often the one holding the minimum) and a dangling link equal the aggregates of the readable files; (3) the reader closes stdout after k bytes for k in %s.. x six formats x streamed/ordered/filtered paths (+ aggregate and grouped): status 0 or 1 and no panic text. non-trivial = a run with at least one fault in reach" % offsets[:6],
         samples=st["samples"], distribution=dict(st["hist"]))
     return ctx.finish(trusted=["which write call the kernel fails after the reader closes the pipe depends on LineWriter buffering; the theorem quantifies over every write instead",
                                "permissions are judged for uid 65534 from the mode bits (files are created by root, so the 'other' bits apply)"])
